@@ -487,6 +487,15 @@ type lvWrite struct {
 	expr  ast.Expr
 	comps []string
 	info  *types.Info
+	// other kinds of precise writes:
+	ghostAt ast.Expr // ghost component(s) in comps written at the reference this expression evaluates to
+	clause  *Clause  // a callee's modifies designator that mentions only package-level names
+}
+
+// addAt: component comp is written at the object denoted by expr (a lib model's receiver/argument).
+func (ms *modSet) addAt(comp string, s Sort, expr ast.Expr, info *types.Info) {
+	ms.comps[comp] = s
+	ms.writes = append(ms.writes, lvWrite{comps: []string{comp}, ghostAt: expr, info: info})
 }
 
 func (ms *modSet) add(name string, s Sort) {
@@ -507,8 +516,13 @@ func (ms *modSet) merge(o *modSet) {
 	for k := range o.imprecise {
 		ms.imprecise[k] = true
 	}
-	// writes of a merged scan (callee bodies, closures) refer to other scopes: imprecise
+	// writes of a merged scan (callee bodies, closures) refer to other scopes: imprecise,
+	// except designators over package-level names, which mean the same everywhere
 	for _, w := range o.writes {
+		if w.clause != nil {
+			ms.writes = append(ms.writes, w)
+			continue
+		}
 		for _, c := range w.comps {
 			ms.imprecise[c] = true
 		}
@@ -770,6 +784,10 @@ func (x *Exec) havocMods(st *State, ms *modSet, tag string) {
 			r := x.c.Bound("r", SInt)
 			x.assumeGlobal(st, x.c.Forall([]*Term{r}, x.c.Implies(x.c.Select(cur, r), x.c.Select(na, r)), []*Term{x.c.Select(na, r)}))
 			st.heap[name] = na
+			brk := x.heapGet(st, "ghost.brk", SInt)
+			nb := x.c.Fresh(tag+"_brk", SInt)
+			x.assumeGlobal(st, x.c.Ge(nb, brk))
+			st.heap["ghost.brk"] = nb
 			continue
 		}
 		if locs, ok := precise[name]; ok {
@@ -812,6 +830,31 @@ func (x *Exec) preciseLocs(st *State, ms *modSet) map[string][]modLoc {
 			savedInfo := x.info
 			x.info = w.info
 			defer func() { x.info = savedInfo }()
+			if w.clause != nil {
+				// modifies designator of a callee over package-level names only
+				x.info, x.curClause = w.clause.Info, w.clause
+				defer func() { x.curClause = nil }()
+				es := st.clone()
+				x.noOblig++
+				defer func() { x.noOblig-- }()
+				locs = x.modLocations(es, w.clause.Expr)
+				ok = locs != nil
+				return
+			}
+			if w.ghostAt != nil {
+				if !x.invariantExpr(w.ghostAt, ms) {
+					return
+				}
+				es := st.clone()
+				x.noOblig++
+				defer func() { x.noOblig-- }()
+				v := x.expr(es, w.ghostAt)
+				for _, cname := range w.comps {
+					locs = append(locs, modLoc{comp: cname, sort: ms.comps[cname], ref: v.T})
+				}
+				ok = true
+				return
+			}
 			var base ast.Expr
 			switch e := w.expr.(type) {
 			case *ast.SelectorExpr:
@@ -965,7 +1008,7 @@ func (x *Exec) checkLoopMods(head map[string]*Term, end *State, ms *modSet, what
 				continue
 			}
 		}
-		if _, ok := ms.comps[name]; !ok {
+		if _, ok := ms.comps[name]; !ok && name != "ghost.brk" {
 			x.fail("%s: loop body modifies heap component %s which the modification scan missed", what, name)
 		}
 	}
